@@ -53,6 +53,9 @@ var c04TransformsFn = []string{"", " |> let Y = fn:plus(X, 1)", " |> let W = fn:
 // focused set for 4-literal bodies in the quick tier
 var c04LitsFour = []string{"q(X)", "q(Y)", "r(X,Y)", "!s(X)", "!s(Y)", "!t(X,Y)", "!t(Y,X)", "X != Y", "X = Y"}
 
+// wildcards next to delayed negated atoms: every wildcard is a variable of its own
+var c04LitsFourW = []string{"q(_)", "r(X,_)", "!s(X)", "_ = X", "X = _", "q(X)", "!t(X,Y)", "q(Y)"}
+
 var c04Transforms = []string{"", " |> let Y = fn:plus(X, 1)", " |> do fn:group_by(X), let Y = fn:count()", " |> let Z = fn:plus(X, 1)"}
 
 var c04EDBs = [][]string{
@@ -122,6 +125,7 @@ func c04(r *rt.Run) {
 		// four literals over a focused 9-literal set: two negated atoms whose binders come later, in every order
 		n0 := len(clauses)
 		rec(c04LitsFour, 4, nil, make([]bool, len(c04LitsFour)))
+		rec(c04LitsFourW, 4, nil, make([]bool, len(c04LitsFourW)))
 		kept := clauses[:n0]
 		for _, c := range clauses[n0:] {
 			body := c[strings.Index(c, ":-"):]
@@ -171,7 +175,7 @@ func c04(r *rt.Run) {
 		}
 		c04Clause(r, clauses[i])
 	})
-	r.Finish("every clause H :- L1..Lk (k<=3 over 28 literals, k<=3 over a 20-literal family with function applications inside atoms / wildcards in equalities / list patterns x 6 transform tails incl. let chains, k=4 over a focused 9-literal set; thorough adds k=4 over 16) in every order x 5 heads x 4 transform tails, analysed alone with declared EDB predicates; accepted ones evaluated on 3 EDBs; " +
+	r.Finish("every clause H :- L1..Lk (k<=3 over 28 literals, k<=3 over a 20-literal family with function applications inside atoms / wildcards in equalities / list patterns x 6 transform tails incl. let chains, k=4 over a focused 9-literal set and over an 8-literal set with wildcards in atoms and equalities; thorough adds k=4 over 16) in every order x 5 heads x 4 transform tails, analysed alone with declared EDB predicates; accepted ones evaluated on 3 EDBs; " +
 		"non-trivial = accepted clause whose reference result is non-empty on some EDB; distinct by construction")
 }
 
